@@ -421,6 +421,14 @@ fn generate(cli: &Cli) -> Vec<Case> {
                         v.client.enc = EncVariant::SecretLen(n);
                         out.push(Case { sc: v, state: format!("{}/login-encryption-response", shape.name), class: "secret-size", detail: n.to_string(), must_err: true, refuse_after: None, max_frame });
                     }
+                    // while the session service is asked (3 s) the client pours 4 MiB after its Encryption
+                    // Response: nothing of it is a frame yet, nothing of it needs to be held
+                    if let Some(i) = sc.client.script.iter().position(|a| matches!(a, Act::EncryptionResponse)) {
+                        let mut v = sc.clone();
+                        v.adapters.auth_latency = Duration::from_secs(3);
+                        v.client.script.insert(i + 1, Act::Send { label: "flood".into(), out: Out::Frame(vec![0x41u8; 4 << 20]) });
+                        out.push(Case { sc: v, state: format!("{}/login-encryption-response", shape.name), class: "flood-while-a-backend-is-asked", detail: "4MiB-behind-the-encryption-response".into(), must_err: true, refuse_after: None, max_frame });
+                    }
                     // a verify token that decrypts correctly under the server key but has another length
                     for n in [0usize, 1, 16, 31, 33, 64, 117] {
                         let mut v = sc.clone();
